@@ -519,6 +519,21 @@ func (s *Sched) release() {
 
 // ---------------------------------------------------------------- exploration
 
+var (
+	progressMu     sync.Mutex
+	progressPrefix []int
+	progressAt     time.Time
+)
+
+// Progress reports the schedule prefix of the execution in progress and when it was started (for a watchdog
+// that lives outside the bubble: code spinning outside the scheduler's control never becomes durably blocked).
+func Progress() ([]int, time.Time) {
+	progressMu.Lock()
+	defer progressMu.Unlock()
+
+	return append([]int{}, progressPrefix...), progressAt
+}
+
 // Scenario describes one closed system. Setup runs inside a SETUP harness thread under the default
 // schedule; it builds the system, registers the scenario's threads with s.Go and returns the oracle,
 // evaluated after the execution has ended and the teardown has run.
@@ -643,6 +658,9 @@ func Explore(t *testing.T, sc Scenario, opts Options) Stats {
 
 			break
 		}
+		progressMu.Lock()
+		progressPrefix, progressAt = append([]int{}, it.prefix...), time.Now()
+		progressMu.Unlock()
 		s, outcome, failure := RunOne(t, sc, it.prefix)
 		st.Execs++
 		st.Steps += s.Steps
